@@ -494,12 +494,15 @@ impl<D: DependencyProvider, RT: AsyncRuntime> Solver<D, RT> {
                     Encoder::new(&mut self.state, &self.cache, root_deps).encode([root_solvable]),
                 )?;
 
-                if let Some(clause_id) = conflicting_clauses.into_iter().next() {
-                    return self.run_sat_process_unsolvable(
-                        root_solvable,
-                        starting_level,
-                        clause_id,
-                    );
+                if !conflicting_clauses.is_empty() {
+                    // A clause reported by the encoder is not necessarily falsified: a
+                    // clause of a candidate whose dependencies were encoded eagerly may
+                    // merely be unit under the current assignment. Restart the loop (all
+                    // clauses have been added by now) and let propagation decide whether
+                    // there really is a conflict at the first level.
+                    self.state.decision_tracker.undo_until(starting_level);
+                    level = starting_level;
+                    continue;
                 }
             }
 
